@@ -224,6 +224,30 @@ pub fn run(lines: &[String]) -> Vec<String> {
                 macro_rules! sz { ($($t:ty),*) => { $( out.push(format!("size {} = {}", stringify!($t).replace(' ', ""), std::mem::size_of::<$t>())); )* } }
                 sz!(u8, u16, u32, u64, usize, i32, i64, bool, char, f64, String, &str, std::time::Instant, Result<u64, u8>, Option<u64>, Option<usize>, (u64, u64), (u64, u64, u64), Vec<u8>, Box<u8>, Option<String>);
             }
+            "stress" => {
+                // stress <threads> <iterations> <subject> <recv> <args..>: unscheduled concurrent repetition of one call (used when a
+                // witness depends on a lock-held window that the schedule controller cannot hold open); prints the executions
+                let nt: usize = t[1].parse().unwrap();
+                let iters: usize = t[2].parse().unwrap();
+                let name = t[3].to_string();
+                let recv: u64 = t[4].parse().unwrap();
+                let a: Vec<u64> = t[5..].iter().map(|x| x.parse().unwrap()).collect();
+                let before = env::execs();
+                let mut hs = Vec::new();
+                for _ in 0..nt {
+                    let name = name.clone();
+                    let a = a.clone();
+                    hs.push(std::thread::spawn(move || {
+                        for _ in 0..iters {
+                            let _ = do_call(&name, recv, &a);
+                        }
+                    }));
+                }
+                for h in hs {
+                    let _ = h.join();
+                }
+                out.push(format!("stress {} {}", nt * iters, env::execs() - before));
+            }
             "conc_thread" => {
                 // conc_thread <tid> <op...> ; ops separated by '/'
                 let tid: usize = t[1].parse().unwrap();
